@@ -93,6 +93,20 @@ def run_rules(prop, rules, ix, config):
     return ctx
 
 
+def premise_rules(module_name, names):
+    """Rules of another property that this property's verdict rests on (its stated assumptions, decided instead of assumed):
+    returns (rule name, function) pairs to append to the importing RULES list.  Instances are keyed
+    `<this property>:uses-<OTHER>.<rule>:...`, so a report says whose clause failed.  The other module is imported
+    when the rule runs, not when the list is built."""
+    def make(rname):
+        def run(ctx):
+            import importlib
+            mod = importlib.import_module("rules." + module_name)
+            dict(mod.RULES)[rname](ctx)
+        return run
+    return [("uses-%s.%s" % (module_name.upper(), rname), make(rname)) for rname in names]
+
+
 def run_selftest(prop):
     """Thorough tier (ii): apply this property's seeded mutants (selftest/mutants.json) to scratch copies of the CURRENT tree and
     require the expected rule to fire.  Results are recorded in the evidence; a miss is printed but is not a property violation."""
